@@ -184,18 +184,18 @@ func runAmtCase(ci interface{}, rec *pbt.Rec) *pbt.Failure {
 
 	h := sim.NewHub(cfg)
 	if bal := bi(c.Balance); bal.Sign() > 0 {
-		if bal.BitLen() > 255 { // more than an sdk.Int can hold ("exactly enough" for two 2^255-scale values): the largest balance there is
-			bal = new(big.Int).Sub(new(big.Int).Lsh(big.NewInt(1), 255), big.NewInt(1))
+		if bal.BitLen() > 256 { // more than an sdk.Int can hold ("exactly enough" for two 2^255-scale values): the largest balance there is
+			bal = new(big.Int).Sub(new(big.Int).Lsh(big.NewInt(1), 256), big.NewInt(1))
 		}
 		h.Fund(sender, "hub", bal)
 	}
 	if err := h.Begin(1, 1600000005); err != nil {
 		return pbt.Failf("harness", "begin: %v", err)
 	}
-	// sdk.Int holds at most 255 bits; a generated 2^255(+1) stands for the largest value a message can carry
+	// sdk.Int holds at most 256 bits; anything larger stands for the largest value a message can carry
 	clamp := func(x *big.Int) *big.Int {
-		if x.BitLen() > 255 {
-			return new(big.Int).Sub(new(big.Int).Lsh(big.NewInt(1), 255), big.NewInt(1))
+		if x.BitLen() > 256 {
+			return new(big.Int).Sub(new(big.Int).Lsh(big.NewInt(1), 256), big.NewInt(1))
 		}
 		return x
 	}
